@@ -21,6 +21,7 @@ import subprocess
 from concurrent.futures import ThreadPoolExecutor
 
 from .. import astfacts
+from .. import model as _model
 
 
 def _cc_syntax(cc, flags, text, path):
@@ -30,11 +31,54 @@ def _cc_syntax(cc, flags, text, path):
     return p.returncode, p.stderr.decode(errors='replace')
 
 
+def _h3(m, rep, tier, hdrs):
+    # ---- H3 ------------------------------------------------------------------------
+    r3 = rep.rule('H3', 'each header alone / every ordered pair / all / twice is accepted with the project flags', floor=len(hdrs) * (len(hdrs) + 1))
+    cfgs = []
+    for h in hdrs:
+        cfgs.append(('alone:' + os.path.basename(h), [h]))
+        cfgs.append(('twice:' + os.path.basename(h), [h, h]))
+    for a, b in itertools.permutations(hdrs, 2):
+        cfgs.append(('pair:%s,%s' % (os.path.basename(a), os.path.basename(b)), [a, b]))
+    cfgs.append(('all', list(hdrs)))
+    cfgs.append(('all-reversed', list(reversed(hdrs))))
+    ccs = ['gcc'] if tier == 'quick' else ['gcc', 'clang']
+    flags = [f for f in m.flags] + m.wflags
+    wd = os.path.join(m.work, 'c18')
+    os.makedirs(wd, exist_ok=True)
+    jobs = []
+    for cc in ccs:
+        for i, (label, hs) in enumerate(cfgs):
+            text = ''.join('#include "cstl/%s"\n' % os.path.basename(h) for h in hs) + 'int cstl_verif_client_%d;\n' % i
+            jobs.append((cc, label, text, os.path.join(wd, '%s_%d.c' % (cc, i))))
+    with ThreadPoolExecutor(max_workers=16) as ex:
+        res = list(ex.map(lambda j: _cc_syntax(j[0], flags, j[2], j[3]), jobs))
+    for (cc, label, text, path), (rc, err) in zip(jobs, res):
+        site = '%s:%s' % (cc, label)
+        if rc == 0:
+            r3.ok(site, 'accepted', '')
+        else:
+            first = [l for l in err.splitlines() if 'error' in l][:3]
+            r3.violation(site, 'client unit [%s] is rejected by %s: %s' % (text.replace('\n', ' ').strip(), cc, ' | '.join(first)), '',
+                         {'unit': text, 'stderr': err[-3000:], 'flags': flags})
+    rep.extra['compile_configurations'] = len(jobs)
+    return flags, wd, ccs
+
+
 def run(m, rep, tier):
     repo = m.repo
     hdrs = astfacts.public_headers(repo)
     hnames = [os.path.basename(h) for h in hdrs]
-    decls = [d for d in astfacts.header_decls(m) if astfacts.in_public_header(m, d) and not d.implicit]
+    try:
+        decls = [d for d in astfacts.header_decls(m) if astfacts.in_public_header(m, d) and not d.implicit]
+    except _model.ModelError as e:
+        # the unit that includes every header once is itself one of H3's witnesses: when the front end rejects
+        # it, decide H3 (which names the header and the configuration) and leave the AST rules unevaluated
+        _h3(m, rep, tier, hdrs)
+        if any(i['verdict'] == 'VIOLATION' for r in rep.rules for i in r.instances):
+            rep.analysis_broken('H1, H2 and H4 were not evaluated: the headers do not parse together (%s)' % str(e)[:200])
+            return
+        raise
     rep.extra['headers'] = hnames
 
     # ---- H1 ------------------------------------------------------------------------
@@ -87,36 +131,7 @@ def run(m, rep, tier):
         else:
             r2.violation(name, '`%s` is defined by several library units: %s' % (name, ', '.join(ps)), loc, {'units': ps})
 
-    # ---- H3 ------------------------------------------------------------------------
-    r3 = rep.rule('H3', 'each header alone / every ordered pair / all / twice is accepted with the project flags', floor=len(hdrs) * (len(hdrs) + 1))
-    cfgs = []
-    for h in hdrs:
-        cfgs.append(('alone:' + os.path.basename(h), [h]))
-        cfgs.append(('twice:' + os.path.basename(h), [h, h]))
-    for a, b in itertools.permutations(hdrs, 2):
-        cfgs.append(('pair:%s,%s' % (os.path.basename(a), os.path.basename(b)), [a, b]))
-    cfgs.append(('all', list(hdrs)))
-    cfgs.append(('all-reversed', list(reversed(hdrs))))
-    ccs = ['gcc'] if tier == 'quick' else ['gcc', 'clang']
-    flags = [f for f in m.flags] + m.wflags
-    wd = os.path.join(m.work, 'c18')
-    os.makedirs(wd, exist_ok=True)
-    jobs = []
-    for cc in ccs:
-        for i, (label, hs) in enumerate(cfgs):
-            text = ''.join('#include "cstl/%s"\n' % os.path.basename(h) for h in hs) + 'int cstl_verif_client_%d;\n' % i
-            jobs.append((cc, label, text, os.path.join(wd, '%s_%d.c' % (cc, i))))
-    with ThreadPoolExecutor(max_workers=16) as ex:
-        res = list(ex.map(lambda j: _cc_syntax(j[0], flags, j[2], j[3]), jobs))
-    for (cc, label, text, path), (rc, err) in zip(jobs, res):
-        site = '%s:%s' % (cc, label)
-        if rc == 0:
-            r3.ok(site, 'accepted', '')
-        else:
-            first = [l for l in err.splitlines() if 'error' in l][:3]
-            r3.violation(site, 'client unit [%s] is rejected by %s: %s' % (text.replace('\n', ' ').strip(), cc, ' | '.join(first)), '',
-                         {'unit': text, 'stderr': err[-3000:], 'flags': flags})
-    rep.extra['compile_configurations'] = len(jobs)
+    flags, wd, ccs = _h3(m, rep, tier, hdrs)
 
     # ---- H4 ------------------------------------------------------------------------
     r4 = rep.rule('H4', 'address-of-everything client links against libcstl.a and libcstl.so (1 and 2 units)', floor=4)
@@ -124,7 +139,7 @@ def run(m, rep, tier):
 
 
 def _link_witness(m, rep, r4, hdrs, flags, wd, ccs):
-    names = m.anchor_names
+    names = m.header_functions()
     cc = 'gcc'
     objs = []
     jobs = []
